@@ -1,6 +1,6 @@
 (* Props/C05.v — Compaction and checkpoint are invisible.
    Only statements, `exact`, and Print Assumptions. *)
-From NDB Require Import Engine.Graph Engine.Model Engine.Known Engine.Witness.
+From NDB Require Import Engine.Graph Engine.Model Engine.Known Engine.Witness Engine.Compact_proofs.
 
 (* compaction / checkpoint changes no read now ... *)
 Definition C05_now_statement : Prop :=
@@ -27,3 +27,13 @@ Proof.
   - exists h_rem, [t_rem]. destruct w_remove as (A & _ & _ & D & E). repeat split; assumption.
 Qed.
 Print Assumptions C05_refuted.
+
+(* proved part (small): node enumeration is unchanged by a compaction when no published run holds a
+   node tombstone; labels, external ids and external-id lookup are never changed by compaction *)
+Definition C05_nodes_partial_statement : Prop :=
+  forall s, (forall m, In m s.(runs) -> m.(me_tn) = []) ->
+    m_nodes (compact s) = m_nodes s /\
+    forall n ext, m_labels (compact s) n = m_labels s n /\ m_ext (compact s) n = m_ext s n /\ m_lookup (compact s) ext = m_lookup s ext.
+Theorem C05_nodes_partial : C05_nodes_partial_statement.
+Proof. intros s H; split; [exact (compact_nodes s H) | intros n ext; exact (compact_labels_ids s n ext)]. Qed.
+Print Assumptions C05_nodes_partial.
